@@ -44,6 +44,36 @@ MUTANTS = [
     ('try_from_inverted', 'src/entity.rs', '''    fn try_from(entity: EntityAny) -> Result<Self, Self::Error> {
         if entity.archetype_id() == A::ARCHETYPE_ID {''', '''    fn try_from(entity: EntityAny) -> Result<Self, Self::Error> {
         if entity.archetype_id() != A::ARCHETYPE_ID {''', ['C14']),
+    ('data_cfg_after_advance', 'macros/src/data.rs', """            if evaluate_cfgs(&cfg_lookup, &archetype.cfgs) == false {
+                continue;
+            }
+
+            // Advance the archetype ID, either implicitly or from the ID attribute
+            last_archetype_id = advance_attribute_id(
+                &archetype, //.
+                &mut archetype_ids,
+                last_archetype_id,
+            )?;
+""", """            // Advance the archetype ID, either implicitly or from the ID attribute
+            last_archetype_id = advance_attribute_id(
+                &archetype, //.
+                &mut archetype_ids,
+                last_archetype_id,
+            )?;
+
+            if evaluate_cfgs(&cfg_lookup, &archetype.cfgs) == false {
+                continue;
+            }
+""", ['C15']),
+    ('data_component_ids_shared', 'macros/src/data.rs', ["""            let mut component_ids = HashMap::new();
+            let mut last_component_id = None;
+""", """        let mut last_archetype_id = None;
+"""], ["""            let mut last_component_id = None;
+""", """        let mut last_archetype_id = None;
+        let mut component_ids = HashMap::new();
+"""], ['C15']),
+    ('data_checked_add_two', 'macros/src/data.rs', 'last.checked_add(1)', 'last.checked_add(2)', ['C15']),
+    ('data_component_name_from_archetype', 'macros/src/data.rs', 'name: component.name.to_string(),', 'name: archetype.name.to_string(),', ['C15']),
     ('panic_in_critical_section', ST, 'self.version = next_version;', 'self.version = self.version.next();', ['C10']),
 ]
 
@@ -60,11 +90,15 @@ def run():
                 shutil.copytree(os.path.join(REPO, d), os.path.join(tmp, d), ignore=shutil.ignore_patterns('target'))
             p = os.path.join(tmp, rel)
             s = open(p).read()
-            if s.count(old) != 1:
-                results.append((name, 'MUTANT-DOES-NOT-APPLY (%d matches)' % s.count(old)))
+            olds = old if isinstance(old, list) else [old]
+            news = new if isinstance(new, list) else [new]
+            if any(s.count(o) != 1 for o in olds):
+                results.append((name, 'MUTANT-DOES-NOT-APPLY'))
                 print(results[-1])
                 continue
-            open(p, 'w').write(s.replace(old, new))
+            for o, nw in zip(olds, news):
+                s = s.replace(o, nw)
+            open(p, 'w').write(s)
             env = dict(os.environ, GECS_REPO=tmp, GV_EVID_DIR=os.path.join(tmp, 'evidence'), GV_REPLAY_DIR=os.path.join(tmp, 'replay'),
                        GV_GEN_DIR=os.path.join(tmp, 'gen'))
             verdicts = {}
